@@ -3,7 +3,7 @@
 # applies its patch to /repo, runs the property checks (quick tier), undoes the patch straight afterwards, and records what happened.
 ID=$1; shift
 OUT=${SEED_OUT:-out}
-SID=$ID; [ "$OUT" = out2 ] && SID=$ID-2; [ "$OUT" = out3 ] && SID=$ID-3; [ "$OUT" = out4 ] && SID=$ID-4; [ "$OUT" = out5 ] && SID=$ID-5; [ "$OUT" = out6 ] && SID=$ID-6; [ "$OUT" = out7 ] && SID=$ID-7
+SID=$ID; [ "$OUT" = out2 ] && SID=$ID-2; [ "$OUT" = out3 ] && SID=$ID-3; [ "$OUT" = out4 ] && SID=$ID-4; [ "$OUT" = out5 ] && SID=$ID-5; [ "$OUT" = out6 ] && SID=$ID-6; [ "$OUT" = out7 ] && SID=$ID-7; [ "$OUT" = out8 ] && SID=$ID-8
 S=/verif/seeded/$SID
 mkdir -p $S
 cp /tmp/mut/$ID/$OUT/patch.diff /tmp/mut/$ID/$OUT/README.md $S/ 2>/dev/null
